@@ -61,7 +61,7 @@ def h0(x, y, *, t, w=1.0):
 
 
 def h1(x, y, *, t, tau=1.0):
-    return 0.5 + t / (t + tau) + 0.1 * np.cos(y) + 0.0 * x
+    return 0.5 + t * t / (t * t + tau) + 0.1 * np.cos(y) + 0.0 * x
 
 
 def v0(x, y, z, a=1.0):
@@ -74,7 +74,7 @@ def v1(x, y, z, b=1.0):
 
 
 def s0(x, y, z, *, t, tau=1.0):
-    return 0.5 + t / (t + tau)
+    return 0.5 + t * t / (t * t + tau)
 
 
 def s1(x, y, z, *, t, w=2.0):
@@ -156,8 +156,8 @@ def _case(draw, maxdepth):
     n = draw(st.integers(2, 6))
     pts = dict(
         x=[draw(st.floats(-3, 3)) for _ in range(n)], y=[draw(st.floats(-3, 3)) for _ in range(n)],
-        z=[draw(st.floats(-1, 2)) for _ in range(n)], t=draw(st.sampled_from([0.0, 0.37, 2.0, 11.5])),
-        t2=draw(st.sampled_from([0.1, 5.0])),
+        z=[draw(st.floats(-1, 2)) for _ in range(n)], t=draw(st.sampled_from([0.0, 0.37, 2.0, 11.5, -1.0, 1.0])),
+        t2=draw(st.sampled_from([0.1, 5.0, -2.0, 1])),
     )
     return dict(arity=arity, tree=tree, points=pts, mutate=draw(st.integers(0, 10 ** 6)),
                 solver=draw(st.integers(0, 3)) == 0)
